@@ -91,7 +91,10 @@ impl Oracle for CcOracle {
                 if fr.iter().any(|f| f.ack_eliciting() && !matches!(f, Frame::PathChallenge(_) | Frame::PathResponse(_))) {
                     data_eliciting = true;
                 }
-                if p.space == Space::OneRtt && is_mtu_probe(&fr) && tx.size > tx.mtu_before as usize {
+                // (with a `minimum_change` of 1 the search can end up probing the size it has
+                // already confirmed: a probe all the same — PING [+ IMMEDIATE_ACK] + padding, alone
+                // in its transmit, at least as large as the estimate)
+                if p.space == Space::OneRtt && is_mtu_probe(&fr) && tx.size >= tx.mtu_before as usize && tx.pk_to - tx.pk_from == 1 {
                     exempt = true;
                 }
             }
@@ -315,8 +318,8 @@ pub fn spec() -> PropSpec {
             Family { name: "zero-rtt", f: fam_zero_rtt, weight: 15 },
             Family { name: "controller-histories", f: fam_controllers, weight: 20 },
         ],
-        quick_worlds: 80_000,
-        thorough_worlds: 1_200_000,
+        quick_worlds: 200_000,
+        thorough_worlds: 2_400_000,
         panic_is_violation: true,
         rule: "worlds: bulk/mixed workloads with the three built-in controllers and a harness controller dictating window() (fixed small/large, oscillating between acknowledgement batches), under loss/reorder/dup/ECN-CE/MTU changes/rebinding, Retry, directed handshake loss; or loss-free constant-delay paths; or seeded call histories on the controllers alone. non-trivial = a fault fired, >1 connection, or a controller history; distinct = distinct abstract-event signature / call history",
         assumptions: vec!["bytes in flight and the tracked-packet sum are read through the read-only probe after every simulation step", "window rule: for a poll_transmit that emitted ack-eliciting, non-exempt packets (no loss probe pending before the call, no MTU probe, not consisting of PATH_CHALLENGE/RESPONSE only, no close); a transmit exempted by a pending loss probe must consume one bytes in flight afterwards are below the window read before the call"],
